@@ -520,7 +520,8 @@ func (sm *shardManagerImpl) UnregisterShard(clientShardID history.ClusterShardID
 		// Update metrics after local shards change
 		sm.mutex.Unlock()
 
-		sm.removeLocalShard(clientShardID)
+		// The entry was removed above, under the lock and only because it was still ours. Deleting it again here,
+		// unconditionally, could remove a registration made by a newer incarnation in the meantime.
 		sm.broadcastShardChange("unregister", clientShardID)
 
 		// Trigger memberlist metadata update to propagate NodeMeta to other nodes
